@@ -13,7 +13,7 @@ theorem convertVariable_input_state (s : CState) (v : Nat) (u : U) (cf : Rat) (m
       (let ci := convertInstance s v cf u .input move
        let cs := convertStateDeriv ci.1 v ci.2 (cfQ s v u cf)
        (if cs.2.isEmpty then cs.1 else replaceRefs cs.1 cs.2, ci.2, cs.2)) := by
-  simp [convertVariable, hcf, hst, hfr, cfQ]
+  simp [convertVariable, statePhase, freePhase, replacePhase, hcf, hst, hfr, cfQ]
 
 theorem oneFree_of_all {E : List CEqn} (t0 : Nat) (h : ∀ e ∈ E, ∀ x t, e.lhs = .deriv x t → t = t0) : OneFree E := by
   intro e₁ h₁ e₂ h₂ x₁ t₁ x₂ t₂ hl₁ hl₂
@@ -34,6 +34,7 @@ theorem mem_stateEqs {s : CState} {v : Nat} {cfq : X} {ode : CEqn} {t : Nat} {e 
 theorem state_struct {s : CState} (hwf : WF s) (v : Nat) (hv : v < s.vars.length) (u : U) (cf : Rat) (move : Bool)
     (hcf1 : cf ≠ 1) (ode : CEqn) (t : Nat) (hode : ode ∈ s.equations) (hlt : ode.lhs = .deriv v t) :
     ∃ s2 : CState,
+      s2 = (convertStateDeriv (convertInstance s v cf u .input move).1 v s.vars.length (cfQ s v u cf)).1 ∧
       convertVariable s v u cf .input move =
         (replaceRefs s2 [((v, t), s.vars.length + 1)], s.vars.length, [((v, t), s.vars.length + 1)]) ∧
       s2.equations = stateEqs s v (cfQ s v u cf) ode t ∧ s2.vars.length = s.vars.length + 2 ∧ Inv0 s2 ∧
@@ -65,8 +66,8 @@ theorem state_struct {s : CState} (hwf : WF s) (v : Nat) (hv : v < s.vars.length
   obtain ⟨d1, d2, d3, d4⟩ := convertStateDeriv_spec c4 v s.vars.length (cfQ s v u cf) rfl ode v t hlk hlt
     (by rw [c3]; omega) hfree
   rw [c3] at d1 d2 d3
-  refine ⟨(convertStateDeriv (convertInstance s v cf u .input move).1 v s.vars.length (cfQ s v u cf)).1, ?_, ?_, d3, d4,
-    ?_, ?_⟩
+  refine ⟨(convertStateDeriv (convertInstance s v cf u .input move).1 v s.vars.length (cfQ s v u cf)).1, rfl, ?_, ?_,
+    d3, d4, ?_, ?_⟩
   · rw [convertVariable_input_state s v u cf move hcf1 hst hfr]
     simp only [c1, d1]
     rfl
@@ -129,7 +130,7 @@ theorem case_input_state (I : Interp K) {s : CState} (hwf : WF s) (v : Nat) (hv 
   have htn : t < s.vars.length := by
     have := (eqScoped_iff _ _).mp (hwf.inv.scopedE ode hode)
     exact this.1 t (by simp [hlt, CLhs.vars])
-  obtain ⟨s2, hr, e2, l2, i2, c2, n2⟩ := state_struct hwf v hv u cf move hcf1 ode t hode hlt
+  obtain ⟨s2, _, hr, e2, l2, i2, c2, n2⟩ := state_struct hwf v hv u cf move hcf1 ode t hode hlt
   obtain ⟨r1, r2, r3, r4, r5, r6⟩ := replaceRefs_sem I (rep := [((v, t), s.vars.length + 1)]) i2 c2 n2
     (by intro p hp; simp only [List.mem_cons, List.not_mem_nil, or_false] at hp; rw [hp, l2]; omega)
   -- every ODE of the model is with respect to `t`; the one of `v` is `ode`
